@@ -117,7 +117,7 @@ impl Var {
 //@ rule R8: `self.set_at < t.stabilisation_num` => `self.set_at.0 < t.stabilisation_num.0` x1
 //@ rule R8: `debug_assert!(watch.is_stale());` => `` x*
 //@ rule R8: `vx_assert(watch.is_stale());` => `` x*
-//@ props: C08 C05 C07
+//@ props: C08 C05 C07 C06
 //@ contract:
 //@|     requires old(self).node is Some, old(t).num_var_sets < usize::MAX,
 //@|     ensures
@@ -135,7 +135,7 @@ impl Var {
 //@ as: fn set_var_while_not_stabilising(&mut self, value: u64, t: &mut State)
 //@ cells: value
 //@ rule R5: `self.did_set_var_while_not_stabilising();` => `self.did_set_var_while_not_stabilising(t);` x1
-//@ props: C08 C07
+//@ props: C08 C07 C06
 //@ contract:
 //@|     requires old(self).node is Some, old(t).num_var_sets < usize::MAX,
 //@|     ensures
@@ -156,7 +156,7 @@ impl Var {
 //@ rule R5: `let t = self.state.upgrade().unwrap();` => `` x1
 //@ rule R5: `self.set_var_while_not_stabilising(value);` => `self.set_var_while_not_stabilising(value, t);` x1
 //@ rule R8: `self.erased()` => `vx_weak_var(self.node_id)` x1
-//@ props: C08 C13 C07
+//@ props: C08 C13 C07 C06
 //@ contract:
 //@|     requires old(self).node is Some, old(t).num_var_sets < usize::MAX,
 //@|     ensures
@@ -196,7 +196,7 @@ impl Var {
 //@ rule R5: `let t = self.state.upgrade().unwrap();` => `` x1
 //@ rule R5: `self.did_set_var_while_not_stabilising();` => `self.did_set_var_while_not_stabilising(t);` x1
 //@ rule R8: `self.erased()` => `vx_weak_var(self.node_id)` x1
-//@ props: C08 C13 C07
+//@ props: C08 C13 C07 C06
 //@ contract:
 //@|     requires old(self).node is Some, old(t).num_var_sets < usize::MAX, forall|x: u64| call_requires(f, (x,)),
 //@|     ensures
@@ -218,7 +218,7 @@ impl Var {
 //@ rule R5: `let t = self.state.upgrade().unwrap();` => `` x1
 //@ rule R5: `self.did_set_var_while_not_stabilising();` => `self.did_set_var_while_not_stabilising(t);` x1
 //@ rule R8: `self.erased()` => `vx_weak_var(self.node_id)` x1
-//@ props: C08 C13 C07
+//@ props: C08 C13 C07 C06
 //@ contract:
 //@|     requires old(self).node is Some, old(t).num_var_sets < usize::MAX, forall|x: &mut u64| call_requires(f, (x,)),
 //@|     ensures
@@ -239,7 +239,7 @@ impl Var {
 //@ rule R5: `let t = self.state.upgrade().unwrap();` => `` x1
 //@ rule R5: `self.did_set_var_while_not_stabilising();` => `self.did_set_var_while_not_stabilising(t);` x1
 //@ rule R8: `self.erased()` => `vx_weak_var(self.node_id)` x1
-//@ props: C08 C13 C07
+//@ props: C08 C13 C07 C06
 //@ contract:
 //@|     requires old(self).node is Some, old(t).num_var_sets < usize::MAX, forall|x: &mut u64| call_requires(f, (x,)),
 //@|     ensures
